@@ -511,6 +511,11 @@ class Visitor(ast.NodeVisitor):
             # The value might be ``None``; it must not be mistaken for a name which could not be resolved
             # (otherwise, an argument called as a built-in, e.g. ``id``, would be shown as the built-in).
             result = self._name_to_value[node.id]
+
+            # Please see "NOTE ABOUT PLACEHOLDERS AND RE-COMPUTATION".
+            # A target of a comprehension which shadows an argument must not be recorded as a value.
+            if result is PLACEHOLDER:
+                return PLACEHOLDER
         elif hasattr(builtins, node.id):
             result = getattr(builtins, node.id)
         else:
